@@ -5,6 +5,7 @@ placedWidth/placedHeight (exhaustive small + random), Circuit::hpwl and IncrNetM
 model; independent from-scratch oracle (DEF transforms as compositions) on the C++ output."""
 import json
 from tools import common
+from checks import circuit_sequences
 
 LEVEL = "proof"
 
@@ -150,10 +151,40 @@ def run(ctx):
                 nontriv.add(l)
         elif i.strip() not in ("0", ""):
             nontriv.add(l)
+    # sequence stream (checks/circuit_sequences.py, harness/circseq.cpp): ONE circuit edited by the public setters (setCellX/Y/Width/
+    # Height/Orientation, setSolution, addNet, setNets, copies ...) and hpwl() asked after every step; each answer is judged as the
+    # one-shot HP case of the public state at that moment (a wirelength kept between calls that goes stale shows here)
+    seeds_q = [ctx.seed] if ctx.quick else [ctx.seed, ctx.seed + 1000, ctx.seed + 2000]
+    recs = []
+    for sd in seeds_q:
+        recs += circuit_sequences.run_sequences(sd, (1500 if ctx.quick else 60000) // len(seeds_q))[0]
+    seqhp = circuit_sequences.hpwl_answers(recs)
+    hl = sorted(set(h for h, _ in seqhp))
+    hi, hm, _ = common.run_both([harness, "run"], [driver], hl) if hl else ([], [], None)
+    fresh = dict(zip(hl, zip(hi, hm)))
+    seq_bad, seq_mism = [], []
+    for (h, v), r in seqhp.items():
+        why = oracle(h, str(v))
+        d = {"case": r.case, "format": "see harness/circseq.cpp header", "after_step": r.step,
+             "steps_so_far": circuit_sequences.steps_text(r.case, r.step), "public_state_at_that_moment": h,
+             "implementation_output": str(v), "fresh_circuit_with_the_same_state": fresh[h][0], "model_for_that_state": fresh[h][1]}
+        if why:
+            seq_bad.append((why, d))
+        elif str(v) != fresh[h][1].strip():
+            seq_mism.append(d)
+        if v != 0:
+            nontriv.add(h)
+    for why, d in seq_bad[:3]:
+        ctx.violation("hpwl() of /repo after a sequence of public edits violates C09 for the circuit's state at that moment: " + why, dict(d, why=why))
+    if seq_mism and not seq_bad and not ofail:
+        ctx.violation("correspondence Hpwl.v <-> Circuit::hpwl broken inside edit sequences (%d answers differ from the model of the state "
+                      "they were given for); no input violating C09 found" % len(seq_mism),
+                      dict(seq_mism[0], broken="correspondence of coq/Hpwl.v (theorems of Properties_C09.v), sequence stream"), found_input=False)
+    ofail_total = len(ofail) + len(seq_bad)
     for l, i, why in ofail[:3]:
         ctx.violation("wirelength computed by /repo violates C09: " + why,
                       {"case": l, "format": "see harness/hpwl.cpp header", "implementation_output": i, "why": why})
-    if not ofail:
+    if not ofail_total:
         if mism:
             ctx.violation("correspondence Hpwl.v <-> coloquinte.cpp/incr_net_model.cpp broken (%d of %d cases differ); no input violating C09 found"
                           % (len(mism), len(lines)),
@@ -163,14 +194,19 @@ def run(ctx):
             ctx.violation("proof obligations of Properties_C09.v do not check", {"broken": "Properties_C09.v", "detail": proof}, found_input=False)
     cov = dict(proof)
     cov.update({"trusted_base": common.TRUSTED_BASE,
-                "evaluations": len(lines), "distinct_nontrivial": len(nontriv),
+                "evaluations": len(lines) + len(seqhp), "distinct_nontrivial": len(nontriv),
+                "sequence_stream": {"hpwl_answers_judged": len(seqhp), "distinct_states": len(hl), "answers_differing_from_model": len(seq_mism),
+                                    "answers_violating_statement": len(seq_bad),
+                                    "what": "one Circuit (1-6 cells, 0-3 nets + added/removed nets, scale up to 2^18) edited by 3-12 public setter "
+                                            "calls in random order (harness/circseq.cpp), hpwl() after every step, twice, and on copies; judged as "
+                                            "the HP case of the public state at that moment (model, from-scratch oracle, fresh circuit)"},
                 "rule": "PO exhaustive: 8 orientations x w,h in 0..3 x px in -1..w+1 x py in -1..h+1 (%d cases) + random up to 2^20; HP/IN random circuits "
                         "(1-8 cells, all orientations, sizes 0..6 x scale up to 2^18, nets of 0..6 pins with repeated cells, pins inside and outside the outline), "
                         "IN: x or y topology over all cells or a random duplicate-free subset in random order, 0-8 position updates. non-trivial = "
                         "orientation other than N (PO) / non-zero wirelength (HP, IN); distinct = distinct case lines" % len(po),
                 "exhaustive": True, "kinds": kinds,
                 "samples": [po[len(po) // 2], lines[len(po) + 1], lines[-1]],
-                "model_vs_impl_differences": len(mism), "impl_outputs_violating_statement": len(ofail),
+                "model_vs_impl_differences": len(mism) + len(seq_mism), "impl_outputs_violating_statement": ofail_total,
                 "clauses": {"pin offsets = DEF transforms": "proved, all orientations/sizes/offsets",
                             "hpwl = bbox sum": "proved (coordinates within int)",
                             "incremental value exact after any update history": "proved for the model built from any net list",
@@ -185,6 +221,16 @@ def replay(ctx, path):
     case = r.get("case") or r["first_difference"]["case"]
     harness = common.build_harness("hpwl")
     driver = common.build_driver()
+    if case.startswith("SQ "):
+        bad = 0
+        print("case :", case)
+        for (h, v), r in circuit_sequences.hpwl_answers(circuit_sequences.run_sequences(0, 0, [case])[0]).items():
+            _, model, _ = common.run_both([harness, "run"], [driver], [h])
+            why = oracle(h, str(v))
+            if why or str(v) != model[0].strip():
+                bad = 1
+                print("after step %d: state %s\n  hpwl() = %s, model %s, oracle: %s" % (r.step, h, v, model[0], why))
+        return bad
     impl, model, _ = common.run_both([harness, "run"], [driver], [case])
     print("case :", case)
     print("impl :", impl[0])
